@@ -276,7 +276,7 @@ ODD_KEYS = ['a b', 'x#y', 'q"r', 'k+', 'br{ace', 'clo}se', 'two\nlines', 'a,b', 
 
 def gen_keyvals(rng, d, toks, fancy, to):
     for _ in range(rng.randint(0, 4)):
-        key = rng.choice(['alpha', 'beta', 'gamma', 'k1', 'k2', 'path', 'x.y', 'A'])
+        key = rng.choice(['alpha', 'beta', 'gamma', 'k1', 'k2', 'path', 'x.y', 'A', 'etc/app.d', 'a-b:c'])
         if to.get('nocase') and rng.random() < 0.4:
             key = ''.join(c.upper() if rng.random() < 0.5 else c.lower() for c in key)
         if to.get('oddkeys') and rng.random() < 0.3:
